@@ -56,6 +56,8 @@ type checkCtx struct {
 	obls     []*Obligation
 	failures []*failure
 	extra    *extraResult
+	replays   string
+	goOverlay map[string]string // source replacements (selftest): also given to `go test -overlay`
 }
 
 type failure struct {
@@ -100,6 +102,7 @@ func runCheck(args []string) int {
 	noEvidence := fs.Bool("no-evidence", false, "do not write the evidence file (selftest)")
 	overlayFile := fs.String("overlay", "", "JSON file {path: replacement file} applied when loading (selftest)")
 	quiet := fs.Bool("q", false, "less output")
+	replaysDir := fs.String("replays", "", "directory for replay files (default <verif>/replays)")
 	fs.Parse(args)
 	if *tier == "" {
 		*tier = os.Getenv("VERIF_TIER")
@@ -112,7 +115,11 @@ func runCheck(args []string) int {
 		vd = filepath.Dir(specDirDefault())
 	}
 	cc := &checkCtx{prop: *prop, tier: *tier, seed: envInt("VERIF_SEED", 0), verifDir: vd, repo: *repo}
-	cc.timeout = 30
+	cc.replays = filepath.Join(vd, "replays")
+	if *replaysDir != "" {
+		cc.replays = *replaysDir
+	}
+	cc.timeout = 60
 	if *tier == "thorough" {
 		cc.timeout = 300
 	}
@@ -129,6 +136,7 @@ func runCheck(args []string) int {
 			fmt.Fprintln(os.Stderr, "overlay:", err)
 			return 2
 		}
+		cc.goOverlay = m
 		for k, v := range m {
 			d, err := os.ReadFile(v)
 			if err != nil {
@@ -279,6 +287,27 @@ func (cc *checkCtx) discharge(quiet bool) {
 		}(i, o)
 	}
 	wg.Wait()
+	// obligations that ended without an answer (time limit) get a second chance, two at a time on a now quiet
+	// machine and with twice the time: a loaded machine must not turn a slow proof into an alarm
+	sem2 := make(chan struct{}, 2)
+	for i, o := range cc.obls {
+		if reports[i].OK || results[i].Answer != Unknown || o.Expect != Unsat {
+			continue
+		}
+		wg.Add(1)
+		go func(i int, o *Obligation) {
+			defer wg.Done()
+			sem2 <- struct{}{}
+			defer func() { <-sem2 }()
+			r := Solve(o.Query(true), cc.timeout*2, cc.seed+7, nil)
+			if r.Answer != Unknown {
+				results[i] = r
+				reports[i].Answer, reports[i].Backend, reports[i].Seconds = r.Answer.String(), r.Backend+" (second attempt)", r.Seconds
+				reports[i].OK = r.Answer == o.Expect
+			}
+		}(i, o)
+	}
+	wg.Wait()
 	cc.reports = reports
 	for i, o := range cc.obls {
 		if !reports[i].OK {
@@ -309,7 +338,7 @@ func (cc *checkCtx) report(plan *PropertyPlan, start time.Time, noEvidence, quie
 			notVerified = append(notVerified, fmt.Sprintf("%s: %v", r.Key, r.Err))
 		}
 	}
-	os.MkdirAll(filepath.Join(cc.verifDir, "replays"), 0o755)
+	os.MkdirAll(cc.replays, 0o755)
 	for _, f := range cc.failures {
 		o := f.obl
 		if o.Expect == Sat {
@@ -319,7 +348,7 @@ func (cc *checkCtx) report(plan *PropertyPlan, start time.Time, noEvidence, quie
 		if f.res.Answer == Sat && !o.NoReplay && o.Expect == Unsat {
 			f.replay = cc.replayObligation(f)
 		}
-		path := filepath.Join(cc.verifDir, "replays", fmt.Sprintf("%s-%s.json", cc.prop, sanitize(o.Name)))
+		path := filepath.Join(cc.replays, fmt.Sprintf("%s-%s.json", cc.prop, sanitize(o.Name)))
 		f.path = path
 		writeReplayFile(path, cc, f)
 		// known finding?
@@ -342,7 +371,7 @@ func (cc *checkCtx) report(plan *PropertyPlan, start time.Time, noEvidence, quie
 	}
 	// binding failures: contract no longer fits the code -> the bounded stand-in (if any) already ran in Extra; report as violation without input
 	for _, nv := range notVerified {
-		path := filepath.Join(cc.verifDir, "replays", fmt.Sprintf("%s-binding-%s.json", cc.prop, sanitize(strings.SplitN(nv, ":", 2)[0])))
+		path := filepath.Join(cc.replays, fmt.Sprintf("%s-binding-%s.json", cc.prop, sanitize(strings.SplitN(nv, ":", 2)[0])))
 		os.WriteFile(path, mustJSON(map[string]any{"property": cc.prop, "obligation": "binding:" + strings.SplitN(nv, ":", 2)[0], "what": nv,
 			"explanation": "the contract could not be applied to the current source (function or loop missing, or a construct outside the verified subset); no obligation of this function was discharged"}), 0o644)
 		violations++
